@@ -36,6 +36,8 @@ static __attribute__((noinline)) void vh_dirty_stack(void)
 #define CHECK(c,msg)      do { if (!(c)) { printf("REPLAY-FAIL: %s\n", msg); fflush(stdout); exit(1); } } while (0)
 #define ASSUME(c)         do { if (!(c)) { printf("REPLAY-ASSUME-FALSE: %s\n", #c); fflush(stdout); exit(3); } } while (0)
 #define WITNESS_POINT()   ((void)0)
+#define __CPROVER_assert(c,msg) CHECK(c, msg)
+#define __CPROVER_assume(c) ASSUME(c)
 #define VH_MAIN           int main(int argc, char **argv) { if (argc > 1) vh_seed = (unsigned)atoi(argv[1]); harness(); printf("REPLAY-PASS\n"); return 0; }
 #else
 uint8_t  nondet_u8(void);
